@@ -32,7 +32,7 @@ func VerifC10Lookups() {
 	fr, err := r.Filter(FilterOptions{IncludeNames: []string{es[0].name}})
 	zz.MonitorStop()
 	zz.Assert(err == nil && fr != nil, "filtering succeeds")
-	zz.Assert(zz.WriteCount() == 0, "lookups, listings and filtering store nothing into the shared registry")
-	zz.Assert(zz.LocksHeld() == 0, "every lock taken by lookups, listings and filtering is released")
+	zz.Assert(zz.WriteCount() == 0, "[monitor] lookups, listings and filtering store nothing into the shared registry")
+	zz.Assert(zz.LocksHeld() == 0, "[monitor] every lock taken by lookups, listings and filtering is released")
 	zz.Cover("lookups")
 }
